@@ -110,6 +110,13 @@ def event(seed: int) -> list:
             found = []
             for s, e in tgt.search_all(rx):
                 found.append({"s": s, "e": e, "text": cps(tgt.text_at(s, e))})
+            # text_at for arbitrary integers (end = -1 stands for "no end given")
+            n_own = len(own)
+            ev["slices"] = []
+            for _ in range(3):
+                s0 = rng.randint(-3, n_own + 2)
+                e0 = rng.choice([None, rng.randint(0, n_own + 3), rng.randint(0, n_own + 3)])
+                ev["slices"].append({"s": s0, "e": -1 if e0 is None else e0, "text": cps(tgt.text_at(s0) if e0 is None else tgt.text_at(s0, e0))})
             first = tgt.search_first(rx)
             pos = tgt.search(rx)
             ev["found"] = found
